@@ -737,6 +737,11 @@ func (o *Overlay) CreateProtocol(name string, t *Tree, sid ServiceID) (ProtocolI
 	tni := o.NewTreeNodeInstanceFromService(t, t.Root, ProtocolNameToID(name), sid, io)
 	pi, err := o.server.protocolInstantiate(tni.token.ProtoID, tni)
 	if err != nil {
+		// nobody holds the node that was listed for the instance: it would
+		// stay listed, and keep its tree, for ever
+		o.instancesLock.Lock()
+		o.nodeDelete(tni.token)
+		o.instancesLock.Unlock()
 		return nil, xerrors.Errorf("instantiating protocol: %v", err)
 	}
 	if err = o.RegisterProtocolInstance(pi); err != nil {
